@@ -134,6 +134,9 @@ class SetV:
         return False
     def clone_value(s, e):
         n = SetV(); n.items = [clone_val(e, p) for p in s.items]; return n
+    def eq_value(s, e, o):
+        if not isinstance(o, SetV) or len(s.items) != len(o.items): return False
+        return b_and(*[b_or(*[veq(e, x, y) for y in o.items]) for x in s.items])
 
 
 def collect_into(e, ty, it, crate, raw=''):
